@@ -29,6 +29,7 @@ Inductive op :=
 | Close (p : str)
 | Rename (a b : str)                  (* rename(2): replaces b itself, even if b is a symlink; fails if b is a directory *)
 | RenameElseUnlink (a b c : str)      (* try: rename(a, b)  except: (unlink(c), errors ignored); raise *)
+| RenameRetry (a b : str)             (* try: rename(a, b)  except OSError: (remove(b), errors ignored); rename(a, b) *)
 | Chmod (p : str)                     (* os.chmod follows a symlink *)
 | Unlink (p : str)
 | UnlinkIfLink (p : str)              (* if islink(p): remove(p)   (lstat) *)
@@ -65,6 +66,13 @@ Definition step_rename (s : st) (a b : str) : st :=
   | None => fail s
   end.
 
+(* os.remove(p) with every error ignored *)
+Definition unlink_quiet (s : st) (p : str) : st :=
+  match names s p with
+  | Some (F _) | Some (L _) => mkst (upd (names s) p None) (data s) (next s) (handle s) (failed s) (followed s)
+  | _ => s
+  end.
+
 Definition step (s : st) (o : op) : st :=
   if failed s then s else
   match o with
@@ -93,6 +101,9 @@ Definition step (s : st) (o : op) : st :=
       mkst (match names s c with Some (F _) | Some (L _) => upd (names s) c None | _ => names s end)
            (data s) (next s) (handle s) true (followed s)
     else s'
+  | RenameRetry a b =>
+    let s' := step_rename s a b in
+    if failed s' then step_rename (unlink_quiet s b) a b else s'
   | Chmod p => match names s p with Some (F _) | Some D => s | Some (L _) => follow s | None => fail s end
   | Unlink p =>
     match names s p with
@@ -112,6 +123,24 @@ Definition step (s : st) (o : op) : st :=
 
 Definition run (s : st) (ops : list op) : st := fold_left step ops s.
 
+(* ---- an operating-system operation FAILS (EACCES, EROFS, ENOSPC, EIO, ENOENT ...) instead of being performed ----
+   the fault is persistent: every system call of the failing kind made by the same statement fails too (the directory
+   stays unwritable, the temporary stays gone).  The exception handling that the statement carries still runs. *)
+Definition step_fault (s : st) (o : op) : st :=
+  if failed s then s else
+  match o with
+  | RenameElseUnlink a b c => fail (unlink_quiet s c)     (* the rename fails; the handler removes c and re-raises *)
+  | RenameRetry a b => fail (unlink_quiet s b)            (* both renames fail; the remove(b) in between succeeded *)
+  | _ => fail s
+  end.
+
+(* the k-th operation fails (k beyond the end: no fault) *)
+Definition run_fault (k : nat) (s : st) (ops : list op) : st :=
+  match nth_error ops k with
+  | Some o => step_fault (run s (firstn k ops)) o
+  | None => run s ops
+  end.
+
 (* what lstat + read of path p shows *)
 Inductive view := VNone | VLink (t : str) | VFile (content : list N) | VDir.
 Definition look (s : st) (p : str) : view :=
@@ -123,6 +152,7 @@ Definition touched (o : op) : list str :=
   | Open p | Write p _ | Close p | Chmod p | Unlink p | UnlinkIfLink p | UnlinkIfExists p => [p]
   | Rename a b => [a; b]
   | RenameElseUnlink a b c => [a; b; c]
+  | RenameRetry a b => [a; b]
   end.
 
 (* the operations that actually reach the operating system, in order (what an strace of the call shows):
@@ -143,6 +173,10 @@ Fixpoint effective (s : st) (ops : list op) : list op :=
       if failed (step_rename s a b)
       then Rename a b :: match names s c with Some (F _) | Some (L _) => [Unlink c] | _ => [] end
       else Rename a b :: effective (step s o) r
+    | RenameRetry a b =>
+      if failed (step_rename s a b)
+      then Rename a b :: match names s b with Some (F _) | Some (L _) => [Unlink b] | _ => [] end ++ Rename a b :: effective (step s o) r
+      else Rename a b :: effective (step s o) r
     | _ => o :: effective (step s o) r
     end
   end.
@@ -156,6 +190,7 @@ Definition interp (tmp final : str) (chunks : list (list N)) (k : stepk) : list 
   | SBlocks t | SDump t => map (Write (pth tmp final t)) chunks
   | SClose t => [Close (pth tmp final t)]
   | SMove a b => [Rename (pth tmp final a) (pth tmp final b)]
+  | SMoveRetryAfterUnlink a b => [RenameRetry (pth tmp final a) (pth tmp final b)]
   | SMoveElseUnlink a b c => [RenameElseUnlink (pth tmp final a) (pth tmp final b) (pth tmp final c)]
   | SChmod t => [Chmod (pth tmp final t)]
   | SUnlink t => [Unlink (pth tmp final t)]
@@ -230,6 +265,7 @@ Definition code_op (o : op) : N * str * str * N :=
   | UnlinkIfLink p => (7%N, p, [], 0%N)
   | UnlinkIfExists p => (8%N, p, [], 0%N)
   | RenameElseUnlink a b c => (10%N, a, b, 0%N)
+  | RenameRetry a b => (11%N, a, b, 0%N)
   end.
 
 Definition code_opt (o : option str) : list N := match o with None => [0%N] | Some p => 1%N :: p end.
@@ -258,3 +294,7 @@ Fixpoint mismatches_from (i : nat) (got expected : list (list (list N))) : list 
   | _, _ => [i]
   end.
 Definition mismatches := mismatches_from 0.
+
+(* the view of `p` after the k-th operation failed, for every k *)
+Definition fault_views (s : st) (ops : list op) (p : str) : list (list N) :=
+  map (fun k => code_view (look (run_fault k s ops) p)) (seq 0 (List.length ops)).
